@@ -269,6 +269,13 @@ def rule_dup(R):
         cen = outq.census(f)
         stores = [bb for (b, bb, field, val, span) in cen["retained"]["elem_stores"]
                   if b.name == name and field == "state" and (outq.is_write0(val) or outq.helper_write0(f, val))]
+        # a patch / re-arm that sits in a `for` loop over the queue stands for its loop: what matters is that the two loops
+        # run on the same paths (an empty queue skips both bodies), and that each body does its store on every iteration
+        def site(bb_):
+            h = outq.loop_head_of(rb, bb_)
+            return h if h is not None and outq.unconditional_in_loop(rb, bb_) else bb_
+        pcalls = [site(x) for x in pcalls]
+        stores = [site(x) for x in stores]
         ok = bool(pcalls) and bool(stores)
         if ok:
             for sb in stores:
